@@ -314,6 +314,9 @@ def pool(thorough):
     out.append(("cdata-prefix", "other", '<a><![CDATA[<?xml version="1.0" encoding="UTF-8"?>]]></a>'))
     out.append(("second-decl-in-comment", "other", '<?xml version="1.0" encoding="UTF-8"?>\n<a><!-- <?xml version="1.0" encoding="UTF-8"?> -->x</a>'))
     out.append(("upper-decl", "other", "<?XML version='1.0'?><a/>"))
+    # characters that are special to regex replacement templates, %-formatting and str.format
+    out.append(("backslash", "other", "<a b='CORP\\1234'>CORP\\alice \\g&lt;0&gt; \\\\ \\s {0} {} %s %(x)s $1 \\n</a>"))
+    out.append(("backslash-decl", "other", "<?xml version='1.0'?>\n<a>\\1 \\g&lt;1&gt; {typ}</a>"))
     return out
 
 
